@@ -89,7 +89,7 @@ def _pad_face_connections(
         # TODO: We do not need to deal with other components
         # TODO: Need to integrate that choice deeper in the loop\.
         if other_component:
-            _, da_partner = other_component.popitem()
+            _, da_partner = next(iter(other_component.items()))
         else:
             # TODO: cover with a test.
             raise ValueError(
